@@ -12,7 +12,7 @@ RULE = ("acyclic generated definitions with outcomes fixed per (task, item, atte
         "the cap and the number of scenarios enumerated completely are reported), sampled orders with lazy polls for "
         "larger ones; compared: final status always; when succeeded also the executed multiset, every published value "
         "not derived from a racy variable, and every output variable that is not racy (racy = several causally "
-        "unordered writers, computed by the monitor's own execution DAG); non-trivial = scenario with >= 2 distinct "
+        "unordered writers, computed by the monitor's own execution DAG); additionally the EXHAUSTIVE family of acyclic shapes over 4 tasks (every edge set with a join x every grouping of a task's outgoing edges into one transition or one per target x every per-transition choice of publishing the shared variable: 1024 definitions, every completion order of each) and a hashed sample of the 5-task family; non-trivial = scenario with >= 2 distinct "
         "orders explored and a fork; distinct = (definition, order) digest")
 ASSUMPTIONS = ASSUME_SIM + ["with fail-fast, which tasks ran before a failure legitimately depends on timing: for failed outcomes only the status is compared"]
 
@@ -98,6 +98,16 @@ def jobs(tier, seed):
                   P=dict(P8, nmin=5, nmax=7, p_join=0.95, p_pub=0.9, p_conflict=0.95, p_items=0.0, p_retry=0.0, p_fail_cmd=0.0,
                          p_res_cond=0.0),
                   max_orders=scale(tier, 60, 400), max_completions=scale(tier, 7, 8), name="nested-joins")
+    # ... with hops that publish nothing (a branch then carries only inherited entries into the next join)
+    js += batches("orders", scale(tier, 50, 1200), scale(tier, 4, 40), gen="dag", gseed=seed + 3, p_fail=0.0,
+                  P=dict(P8, nmin=5, nmax=7, p_join=0.95, p_pub=0.45, p_conflict=0.6, p_items=0.0, p_retry=0.0, p_fail_cmd=0.0,
+                         p_res_cond=0.0),
+                  max_orders=scale(tier, 60, 400), max_completions=scale(tier, 7, 8), name="nested-joins-sparse-publish")
+    # exhaustive: every acyclic shape over 4 tasks x transition grouping x publish pattern (1024 definitions), every
+    # completion order of each; plus a sample of the 5-task family
+    js += batches("orders", 1024, 64, gen="shape", gseed=0, p_fail=0.0, max_orders=120, max_completions=6, name="shapes-4-exhaustive")
+    js += batches("orders", scale(tier, 160, 8000), scale(tier, 16, 100), gen="shape", shape_n=5, shape_sample=True, gseed=seed + 7,
+                  p_fail=0.0, max_orders=scale(tier, 60, 240), max_completions=6, name="shapes-5-sampled")
     return js
 
 
